@@ -195,7 +195,6 @@ struct Scan {
 }
 
 fn scan(names: &KeyNames, cfg: &str, files: &[(String, String)], hist: &[Step]) -> Scan {
-    let has_overrides = cfg.contains("defoverrides");
     let mut sc = Scan { flags: vec![], down: vec![], pre: vec![], done: 0, problem: None };
     let r = std::panic::catch_unwind(std::panic::AssertUnwindSafe(|| -> Result<(), String> {
         let mut sim = Sim::new(cfg, files)?;
@@ -224,7 +223,7 @@ fn scan(names: &KeyNames, cfg: &str, files: &[(String, String)], hist: &[Step]) 
             sc.flags.push(fl);
             sc.down.push(down.clone());
             let prev_cv2a = sc.pre.last().map(|p| p.cv2a).unwrap_or(true);
-            sc.pre.push(pre_of(&sim, prev_cv2a, has_overrides));
+            sc.pre.push(pre_of(&sim, prev_cv2a));
             sc.done += 1;
         }
         Ok(())
@@ -248,8 +247,9 @@ struct Pre {
     /// oneshot.timeout / oneshot.keys.len()
     ost: u16,
     nosk: usize,
-    /// the key set the next tick will compute differs from prev_keys (a release / press is still to be written);
-    /// not evaluated when the configuration has defoverrides (prev_keys then holds the overridden keys)
+    /// the key set of the layout differs from prev_keys: a release / press is still to be written by the next tick
+    /// (also true while an override / unmod rewrites the key set; the attribution additionally needs the
+    /// counterfactual "the same pair one tick later agrees")
     kdiff: bool,
     /// chords v2 accepts chords (ticks_to_ignore_chord == 0)
     cv2a: bool,
@@ -259,7 +259,7 @@ struct Pre {
     drec: bool,
 }
 
-fn pre_of(sim: &Sim, prev_cv2a: bool, has_overrides: bool) -> Pre {
+fn pre_of(sim: &Sim, prev_cv2a: bool) -> Pre {
     let l = sim.k.layout.b();
     let mut cur: Vec<u16> = l.keycodes().map(|k| k as u16).collect();
     let mut prev: Vec<u16> = sim.k.prev_keys.iter().map(|k| *k as u16).collect();
@@ -272,7 +272,7 @@ fn pre_of(sim: &Sim, prev_cv2a: bool, has_overrides: bool) -> Pre {
         osp: l.oneshot.pause_input_processing_ticks,
         ost: l.oneshot.timeout,
         nosk: l.oneshot.keys.len(),
-        kdiff: !has_overrides && sim.k.caps_word.is_none() && cur != prev,
+        kdiff: sim.k.caps_word.is_none() && cur != prev,
         cv2a,
         cv2edge: l.chords_v2.is_some() && cv2a && !prev_cv2a,
         drec: sim.k.dynamic_macro_record_state.is_some(),
@@ -431,8 +431,7 @@ fn cmd_paired_inner(args: &[String]) -> Result<(), String> {
                 // pending; one-shot end pending with timeout 0; a blocked stretch longer than `long_gap` ticks);
                 // `fired` counts the decisions changed by each guard.
                 let long_gap = c["long_gap"].as_u64().unwrap_or(9000) as usize;
-                let has_overrides = cfg.contains("defoverrides");
-                let run_block = |guard: bool, fired: &mut [u64; 6]| -> Vec<Value> {
+                            let run_block = |guard: bool, fired: &mut [u64; 6]| -> Vec<Value> {
                     let mut lb = Lane::new();
                     guarded(&mut lb, &mut |lane: &mut Lane| {
                         let mut sim = Sim::new(&cfg, &files)?;
@@ -448,7 +447,7 @@ fn cmd_paired_inner(args: &[String]) -> Result<(), String> {
                                 Step::Tick if blocked => lane.skip(),
                                 _ => {
                                     let r = apply(&mut sim, &names, st, Some(lane))?;
-                                    let p = pre_of(&sim, prev_cv2a, has_overrides);
+                                    let p = pre_of(&sim, prev_cv2a);
                                     prev_cv2a = p.cv2a;
                                     if let Some((_, cb)) = r {
                                         blocked = cb;
